@@ -53,37 +53,41 @@ func items(tier string) []item {
 			return clisched.Scenario{Name: fmt.Sprintf("%s/%dx%d%s%s%s", kind, n, m, map[bool]string{true: "+close"}[cl], map[bool]string{true: "+connect"}[co], map[bool]string{true: "+hooks"}[hk]),
 				Kind: kind, Callers: n, Calls: m, Close: cl, Connect: co, Hooks: hk}
 		}
-		// every schedule (no bound) for the small configurations
-		out = append(out, item{mk(2, 1, false, false, false), unbounded, vsched.ModePreemption, false, 2})
-		out = append(out, item{mk(2, 1, true, false, false), unbounded, vsched.ModePreemption, false, 4})
-		out = append(out, item{mk(2, 1, false, false, true), unbounded, vsched.ModePreemption, false, 2})
-		if netw {
-			out = append(out, item{mk(2, 1, false, true, false), unbounded, vsched.ModePreemption, false, 4})
-			out = append(out, item{mk(1, 2, true, true, false), unbounded, vsched.ModePreemption, false, 4})
+		all := func(sc clisched.Scenario, minOrders int) {
+			out = append(out, item{sc, unbounded, vsched.ModePreemption, false, minOrders})
 		}
-		// every schedule as well for three goroutines / two calls each (the lock serialises, so the trees stay small)
-		out = append(out, item{mk(3, 1, false, false, false), unbounded, vsched.ModePreemption, false, fact(3)})
-		out = append(out, item{mk(2, 2, false, false, false), unbounded, vsched.ModePreemption, false, 6})
-		out = append(out, item{mk(3, 1, true, false, false), unbounded, vsched.ModePreemption, false, 24})
-		out = append(out, item{mk(2, 2, true, false, false), unbounded, vsched.ModePreemption, false, 6})
+		// every schedule (no bound): the lock serialises the exchanges, so the trees stay small as long as it works
+		all(mk(2, 1, false, false, false), 2)
+		all(mk(2, 1, true, false, false), 6)
+		all(mk(2, 1, false, false, true), 2)
+		all(mk(3, 1, false, false, false), fact(3))
+		all(mk(2, 2, false, false, false), 6)
+		all(mk(3, 1, true, false, false), 24)
+		all(mk(2, 2, true, false, false), 6)
+		all(mk(3, 2, false, false, false), 20)
+		all(mk(4, 1, false, false, true), 24)
 		if netw {
-			out = append(out, item{mk(2, 1, true, true, false), unbounded, vsched.ModePreemption, false, 12})
+			all(mk(2, 1, false, true, false), 6)
+			all(mk(1, 2, true, true, false), 6)
+			all(mk(2, 1, true, true, false), 24)
+			all(mk(2, 2, true, true, false), 24)
+			all(mk(3, 1, true, true, true), 24)
 		}
 		tf := mk(2, 1, false, false, false)
 		tf.LongTimeout = true
 		out = append(out, item{tf, 2, vsched.ModeDelay, true, 2})
 		if thorough {
-			out = append(out, item{mk(3, 2, false, false, false), 3, vsched.ModePreemption, false, 20})
-			out = append(out, item{mk(4, 1, false, false, false), 4, vsched.ModePreemption, false, 24})
-			out = append(out, item{mk(4, 1, true, false, true), 3, vsched.ModePreemption, false, 24})
-			out = append(out, item{mk(3, 2, true, false, false), 3, vsched.ModePreemption, false, 20})
+			all(mk(4, 2, false, false, false), 24)
+			all(mk(5, 1, false, false, false), 120)
+			all(mk(3, 3, false, false, false), 20)
+			all(mk(4, 1, true, false, true), 120)
+			all(mk(3, 2, true, false, false), 20)
 			tf3 := mk(3, 1, true, false, true)
 			tf3.LongTimeout = true
 			out = append(out, item{tf3, 3, vsched.ModeDelay, true, 6})
 			if netw {
-				out = append(out, item{mk(2, 2, true, true, false), 4, vsched.ModePreemption, false, 6})
-				out = append(out, item{mk(3, 1, true, true, false), 4, vsched.ModePreemption, false, 6})
-				out = append(out, item{mk(3, 2, true, true, true), 3, vsched.ModePreemption, false, 6})
+				all(mk(3, 2, true, true, true), 20)
+				all(mk(4, 1, true, true, false), 120)
 			}
 		}
 	}
